@@ -57,25 +57,25 @@ func (s *Solvers) cmd(ctx context.Context, backend, file string, to time.Duratio
 }
 
 func classify(out string) string {
+	res := ""
 	for _, line := range strings.Split(out, "\n") {
 		line = strings.TrimSpace(line)
 		switch {
-		case line == "unsat":
-			return "unsat"
-		case line == "sat":
-			return "sat"
-		case line == "unknown":
-			return "unknown"
-		case line == "timeout":
-			return "timeout"
+		case line == "unsat" || line == "sat" || line == "unknown" || line == "timeout":
+			if res == "" {
+				res = line
+			}
 		case strings.HasPrefix(line, "(error"):
-			if strings.Contains(line, "model is not available") {
+			if strings.Contains(line, "model is not available") || strings.Contains(line, "Cannot get value") || strings.Contains(line, "cannot get value") {
 				continue
 			}
 			return "error"
 		}
 	}
-	return "unknown"
+	if res == "" {
+		return "unknown"
+	}
+	return res
 }
 
 // run races the back ends on one script. Returns the deciding result and all results seen.
@@ -302,6 +302,15 @@ func (s *Solvers) dischargeOne(o *Obligation) {
 			o.Output = r2.out
 		default:
 			o.Status = "unknown"
+			allErr := true
+			for _, a := range append(append([]solverRes(nil), all...), all2...) {
+				if a.status != "error" && a.status != "cancelled" {
+					allErr = false
+				}
+			}
+			if allErr {
+				o.Status = "error"
+			}
 			var sb strings.Builder
 			for _, a := range append(all, all2...) {
 				fmt.Fprintf(&sb, "[%s %.1fs] %s\n", a.backend, a.secs, firstLines(a.out, 3))
